@@ -240,5 +240,11 @@ RULE_EXTRA = {
 }
 for _p, _x in RULE_EXTRA.items():
     CHECKS[_p]["rule"] += " " + _x
-CHECKS["C16"]["deadline"]["quick"] = 200
-CHECKS["C08"]["deadline"]["quick"] = 200
+# quick deadlines leave a factor of about three over the time on 16 idle cores (the checks stop cleanly at the
+# deadline and say so: exhaustive=false)
+CHECKS["C16"]["deadline"]["quick"] = 240
+CHECKS["C08"]["deadline"]["quick"] = 300
+CHECKS["C09"]["deadline"]["quick"] = 240
+CHECKS["C07"]["deadline"]["quick"] = max(CHECKS["C07"]["deadline"]["quick"], 180)
+CHECKS["C06"]["deadline"]["quick"] = max(CHECKS["C06"]["deadline"]["quick"], 150)
+CHECKS["C05"]["deadline"]["quick"] = max(CHECKS["C05"]["deadline"]["quick"], 200)
